@@ -36,7 +36,8 @@ EXPLANATION = (
     'every enumerated path. R7: accepted short forms (bare string for Void/nullable tags, '
     'tag-only nullable members, null for nullable). Decides these structural parts, not the '
     'value-level "accepts exactly".'
-    ' R8: the decoder validates against the generated validators, so generate_validator_constructor must forward every IR constructor parameter, wrap Nullable on every return, and generate_func_call must drop a keyword only for None (shared with C08-R3).')
+    ' R8: the decoder validates against the generated validators, so generate_validator_constructor must forward every IR constructor parameter, wrap Nullable on every return, and generate_func_call must drop a keyword only for None (shared with C08-R3).'
+    ' R9 (imported from C08-R6): the decoder builds unions through Union.__init__, whose type-only shortcut must stay limited to Struct/Union validators.')
 ASSUMPTIONS = [
     'CPython ast of the working tree is the program; structured control flow',
     'implicit exceptions are modelled only for: container operations on the untrusted document, '
@@ -646,7 +647,9 @@ def run(pm, ctx):
     ctx.rule('C06-R8', 'generated validator constructors carry every declared bound and the Nullable wrap')
     from .C08 import validator_construction
     validator_construction(pm, ctx, 'C06-R8')
-
+    ctx.import_rules(pm, 'C08', {'C08-R6'}, 'C06-R9',
+                     'Union.__init__ / Attribute.__set__ validate every value through the member '
+                     'validator (shared with C08-R6)')
 
 def _construct(site):
     n = site.node
